@@ -728,9 +728,15 @@ impl<'a> G<'a> {
             format!("{a}{}{op}{}{b}", self.ws(), self.ws())
         } else if self.rng.chance(1, 6) {
             // direct Array(Bool) value
+            let saved = (self.used.clone(), self.used_in_list.clone());
             match self.path_to(Type::Bool, 1, false) {
                 Some((p, _)) if !p.is_empty() && self.path_is_array(&p) => p,
-                _ => self.comparison(true, depth),
+                _ => {
+                    // the candidate path is discarded: it was not written
+                    self.used = saved.0;
+                    self.used_in_list = saved.1;
+                    self.comparison(true, depth)
+                }
             }
         } else {
             self.comparison(true, depth)
